@@ -130,6 +130,7 @@ void parsec_atomic_rwlock_rdlock(parsec_atomic_rwlock_t *L)
     w = parsec_atomic_fetch_add_int32(&L->rin, RINC) & WBITS;
     if( w != 0 ) {
         while( w == (L->rin & WBITS) )
+            PARSEC_VERIF_SPIN(&L->rin)
             if( count++ > 1000 )
               nanosleep( &ts, NULL );
     }
@@ -149,12 +150,14 @@ void parsec_atomic_rwlock_wrlock(parsec_atomic_rwlock_t *L)
     struct timespec ts = { .tv_sec = 0, .tv_nsec = 100 };
     ticket = parsec_atomic_fetch_inc_int32(&L->win);
     while( L->wout != ticket )
+        PARSEC_VERIF_SPIN(&L->wout)
         if( count++ > 1000 )
             nanosleep( &ts, NULL );
     w = PRES | (ticket & PHID);
     ticket = parsec_atomic_fetch_add_int32(&L->rin, w);
     count = 0;
     while( L->rout != ticket )
+        PARSEC_VERIF_SPIN(&L->rout)
         if( count++ > 1000 )
             nanosleep( &ts, NULL );
     parsec_atomic_rmb(); // acquire
